@@ -111,35 +111,80 @@ Proof.
   - injection E as <-. repeat split; [repeat constructor | cbn; lia | discriminate].
 Qed.
 
-Lemma cleanup_codes hr c w e w' :
-  cleanup true hr c w = (e, w') ->
-  exists l, codes_after w w' l /\ all_codes (expected4 c) l.
+(* codes a later close attempt may carry: the configured error code (or the fallback when that
+   one is invalid), or the fallback after the server rejected a close with "invalid close code" *)
+Definition allowed (c : cfg) (l : list (event * sfail)) : Prop :=
+  Forall (fun y => y = expected4 c \/ y = fallback_ws_error_code) (close_codes l).
+
+(* the cleanup's own closes: the first carries the error code *)
+Definition good4 (c : cfg) (l : list (event * sfail)) : Prop :=
+  match close_codes l with
+  | [] => True
+  | z :: tl => z = expected4 c /\ Forall (fun y => y = expected4 c \/ y = fallback_ws_error_code) tl
+  end.
+
+Lemma good4_allowed c l : good4 c l -> allowed c l.
 Proof.
-  unfold cleanup, expected4. intro Hs.
-  destruct (op_close true hr c (CInt (err_code c)) false w) as [r w1] eqn:E1.
-  destruct (valid_code (err_code c)) eqn:Hv.
-  - destruct (op_close_valid _ _ _ _ _ _ _ Hv E1) as [l [Hc [Ha _]]].
-    rewrite (code_check_valid _ Hv) in Hs. exists l.
-    destruct r; injection Hs as <- <-; auto.
-  - destruct (op_close_codes _ _ _ _ _ _ _ E1) as [l [Hc [_ [Hx _]]]].
-    destruct (Hx (code_check_invalid _ Hv)) as [-> ->].
-    rewrite (code_check_invalid _ Hv) in Hs.
-    destruct (op_close true hr c (CInt fallback_ws_error_code) false w1) as [r2 w2] eqn:E2.
-    assert (Hvf : valid_code fallback_ws_error_code = true) by reflexivity.
-    destruct (op_close_valid _ _ _ _ _ _ _ Hvf E2) as [l2 [Hc2 [Ha2 _]]].
-    exists l2. unfold codes_after in *. rewrite app_nil_r in Hc.
-    destruct r2; injection Hs as <- <-; (split; [congruence | exact Ha2]).
+  unfold good4, allowed. destruct (close_codes l); [constructor|]. intros [-> H]. constructor; auto.
 Qed.
 
-Lemma all_codes_ok c cause s z l :
-  all_codes z l -> z = expected_code c fallback_ws_error_code 3000 cause s ->
-  (forall y, In y (tl (close_codes l)) -> y = expected4 c) ->
-  wrapper_close_ok c fallback_ws_error_code 3000 cause s l = true.
+Lemma all_codes_allowed c z l :
+  all_codes z l -> z = expected4 c \/ z = fallback_ws_error_code -> allowed c l.
 Proof.
-  unfold wrapper_close_ok, all_codes. intros Ha Hz Ht.
-  destruct (close_codes l) as [|y tl0]; [reflexivity|].
-  inversion Ha; subst. rewrite Z.eqb_refl. cbn.
-  apply forallb_forall. intros x Hx. apply Z.eqb_eq. cbn in Ht. rewrite (Ht x Hx). reflexivity.
+  unfold all_codes, allowed. intros H Hz. rewrite Forall_forall in *. intros y Hy. rewrite (H y Hy). exact Hz.
+Qed.
+
+Lemma cleanup_codes hr c w e w' :
+  cleanup true hr c w = (e, w') ->
+  exists l, codes_after w w' l /\ good4 c l.
+Proof.
+  unfold cleanup. intro Hs.
+  destruct (op_close true hr c (CInt (err_code c)) false w) as [r w1] eqn:E1.
+  assert (Hvf : valid_code fallback_ws_error_code = true) by reflexivity.
+  destruct (valid_code (err_code c)) eqn:Hv.
+  - destruct (op_close_valid _ _ _ _ _ _ _ Hv E1) as [l [Hc [Ha [Hlen Hne]]]].
+    assert (E4 : expected4 c = err_code c) by (unfold expected4; rewrite Hv; reflexivity).
+    assert (G1 : good4 c l).
+    { unfold good4, all_codes in *. destruct (close_codes l) as [|z tl] eqn:Ecc; [exact I|].
+      inversion Ha; subst. split; [congruence|].
+      rewrite Forall_forall in *. intros y Hy. left. rewrite E4. apply H2. exact Hy. }
+    destruct r as [v|x|]; try (injection Hs as <- <-; exists l; auto).
+    destruct (mentions_invalid_code c x); [|injection Hs as <- <-; exists l; auto].
+    destruct (op_close true hr c (CInt fallback_ws_error_code) false w1) as [r2 w2] eqn:E2.
+    destruct (op_close_valid _ _ _ _ _ _ _ Hvf E2) as [l2 [Hc2 [Ha2 _]]].
+    exists (l ++ l2). split.
+    { assert (W : w' = w2) by (destruct r2; injection Hs as _ <-; reflexivity). subst w'.
+      eapply codes_after_trans; eauto. }
+    specialize (Hne x eq_refl).
+    unfold good4. rewrite close_codes_app.
+    (* l is exactly one close event *)
+    destruct l as [|a l']; [congruence|]. destruct l'; [|cbn in Hlen; lia].
+    unfold all_codes in Ha. destruct a as [ev k]. cbn in *.
+    destruct (op_close_codes _ _ _ _ _ _ _ E1) as [l0 [Hc0 [Hl0 _]]].
+    assert (l0 = [(ev, k)]) by (unfold codes_after in *; rewrite Hc in Hc0; apply app_inv_head in Hc0; auto).
+    subst l0. destruct Hl0 as [X|[co [rr [k0 [Ec X]]]]]; [discriminate|]. injection X as -> ->.
+    cbn. rewrite (code_check_valid _ Hv) in Ec. injection Ec as <-. cbn.
+    split; [congruence|]. unfold all_codes in Ha2. rewrite Forall_forall in *.
+    intros y Hy. right. apply Ha2. exact Hy.
+  - destruct (op_close_codes _ _ _ _ _ _ _ E1) as [l [Hc [_ [Hx _]]]].
+    destruct (Hx (code_check_invalid _ Hv)) as [-> ->].
+    unfold mentions_invalid_code in Hs. rewrite (code_check_invalid _ Hv) in Hs.
+    destruct (op_close true hr c (CInt fallback_ws_error_code) false w1) as [r2 w2] eqn:E2.
+    destruct (op_close_valid _ _ _ _ _ _ _ Hvf E2) as [l2 [Hc2 [Ha2 _]]].
+    exists l2. unfold codes_after in *. rewrite app_nil_r in Hc.
+    assert (E4 : expected4 c = fallback_ws_error_code) by (unfold expected4; rewrite Hv; reflexivity).
+    split; [destruct r2; injection Hs as <- <-; congruence|].
+    unfold good4, all_codes in *. destruct (close_codes l2) as [|z tl]; [exact I|].
+    inversion Ha2; subst. split; [congruence|]. rewrite Forall_forall in *. intros y Hy. right. auto.
+Qed.
+
+Lemma tail_ok c tl :
+  Forall (fun y => y = expected4 c \/ y = fallback_ws_error_code) tl ->
+  forallb (fun y => Z.eqb y (expected_code c fallback_ws_error_code 3000 4 0) || Z.eqb y fallback_ws_error_code) tl = true.
+Proof.
+  intro H. apply forallb_forall. intros y Hy. rewrite Forall_forall in H.
+  destruct (H y Hy) as [-> | ->]; [change (expected_code c fallback_ws_error_code 3000 4 0) with (expected4 c) | ];
+    rewrite Z.eqb_refl; [reflexivity | apply orb_true_r].
 Qed.
 
 Lemma code_check_int z co : code_check (CInt z) = inl co -> co = Some z.
@@ -148,25 +193,23 @@ Proof.
     intro H; try discriminate; injection H as <-; reflexivity.
 Qed.
 
-Lemma expected4_eq c : expected_code c fallback_ws_error_code 3000 4 0 = expected4 c.
-Proof. reflexivity. Qed.
-
 Lemma handle_exception_codes hr c x w e w' :
   handle_exception true hr c x w = (e, w') ->
   exists l, codes_after w w' l
             /\ wrapper_close_ok c fallback_ws_error_code 3000 (fst (cause_of (Raised x)))
                                 (snd (cause_of (Raised x))) l = true
-            /\ (not_http x -> all_codes (expected4 c) l).
+            /\ (not_http x -> allowed c l).
 Proof.
   assert (CL : forall e w', cleanup true hr c w = (e, w') ->
                exists l, codes_after w w' l
                  /\ wrapper_close_ok c fallback_ws_error_code 3000 4 0 l = true
-                 /\ all_codes (expected4 c) l).
-  { clear e w'. intros e w' H. destruct (cleanup_codes _ _ _ _ _ H) as [l [Hc Ha]].
-    exists l. repeat split; auto. eapply all_codes_ok; eauto.
-    intros y Hy. unfold all_codes in Ha. rewrite Forall_forall in Ha. apply Ha.
-    destruct (close_codes l); [destruct Hy | right; exact Hy]. }
-  assert (HT : forall s e w', 
+                 /\ allowed c l).
+  { clear e w'. intros e w' H. destruct (cleanup_codes _ _ _ _ _ H) as [l [Hc Hg]].
+    exists l. repeat split; auto; [|apply good4_allowed; exact Hg].
+    unfold wrapper_close_ok. unfold good4 in Hg. destruct (close_codes l) as [|z tl]; [reflexivity|].
+    destruct Hg as [-> Ht]. change (expected_code c fallback_ws_error_code 3000 4 0) with (expected4 c).
+    rewrite Z.eqb_refl. apply tail_ok. exact Ht. }
+  assert (HT : forall s e w',
      (let (r, w1) := op_close true hr c (CInt (s + ws_code_offset)) false w in
       match r with Raise y => (Raised y, w1) | _ => (Returned, w1) end) = (e, w') ->
      exists l, codes_after w w' l /\ wrapper_close_ok c fallback_ws_error_code 3000 3 s l = true).
@@ -206,9 +249,7 @@ Proof.
       exists (l1 ++ l2). split; [eapply codes_after_trans; eauto|].
       destruct Hl1 as [->|[co [rr [k [E ->]]]]].
       * specialize (Hr1 x eq_refl eq_refl). discriminate.
-      * cbn in E. injection E as <-. unfold wrapper_close_ok. cbn.
-        apply forallb_forall. intros y Hy. apply Z.eqb_eq.
-        unfold all_codes in Ha2. rewrite Forall_forall in Ha2. rewrite (Ha2 y Hy). reflexivity.
+      * cbn in E. injection E as <-. unfold wrapper_close_ok. cbn. apply tail_ok. exact Ha2.
     + injection Hs as _ _ <-. exists l1. split; [exact Hc1|].
       destruct Hl1 as [->|[co [rr [k [E ->]]]]]; [reflexivity|].
       cbn in E. injection E as <-. reflexivity.
@@ -229,4 +270,152 @@ Theorem wrapper_close_session hr c mw rt cl fl rs e w :
 Proof.
   rewrite session_split. destruct (scripts_end true hr c mw rt cl fl) as [[rs0 e2] w2].
   intros Hs Hns. apply (wrapper_close_all _ _ _ _ _ _ _ _ Hs Hns).
+Qed.
+
+(* ---- the "invalid close code" fallback retries (Spec.wrapper_retry_ok) *)
+Definition stopped (w : ws) : ws := set_pump false (set_hand None w).
+
+(* a close() with a valid code on a socket that is not closed makes exactly one send() call;
+   if the server rejects it with "invalid close code" the exception is re-raised as is and
+   the socket is still open for another attempt *)
+Lemma close_try hr c ca co reason w r w' :
+  code_check ca = inl co -> is_closed (stopped w) = false ->
+  op_close true hr c ca reason w = (r, w') ->
+  exists k rr, trace w' = trace w ++ [(EClose (or1000 co) rr, k)]
+    /\ (k = SInvalid -> r = Raise XInvalidCode /\ is_closed (stopped w') = false)
+    /\ (r = Raise XInvalidCode -> k = SInvalid).
+Proof.
+  intros Ec Hcl. unfold op_close. fold (stopped w). rewrite Ec, Hcl.
+  unfold do_send. unfold is_closed, stopped in Hcl. cbn in Hcl. cbn.
+  destruct (flag w) eqn:Ef; [destruct (st w); discriminate|].
+  destruct (st w) eqn:Es; try discriminate; cbn; rewrite ?Es, ?Ef; cbn;
+    (destruct (fails w) as [|k fa]; cbn; [|destruct k; cbn]; intro H; injection H as <- <-;
+     do 2 eexists; (split; [reflexivity|]); (split; [intro X; try discriminate X|intro X; try discriminate X; try reflexivity]);
+     try (split; [reflexivity|]; unfold is_closed, stopped; cbn; rewrite ?Es, ?Ef; reflexivity)).
+Qed.
+
+Lemma retry_single fb z rr k : (k = SInvalid -> z = fb) -> retry_ok fb [(EClose z rr, k)] = true.
+Proof. intro H. destruct k; cbn; try reflexivity. rewrite (H eq_refl), Z.eqb_refl. reflexivity. Qed.
+
+Lemma retry_app_single fb z rr k l2 :
+  (k = SInvalid -> z = fb \/ close_codes l2 <> []) -> retry_ok fb l2 = true ->
+  retry_ok fb ((EClose z rr, k) :: l2) = true.
+Proof.
+  intros H H2. destruct k; cbn; try exact H2. rewrite H2, andb_true_r.
+  destruct (H eq_refl) as [-> | Hn]; [rewrite Z.eqb_refl; reflexivity|].
+  destruct (close_codes l2); [congruence | apply orb_true_r].
+Qed.
+
+Lemma stopped_closed_after_noclose hr c z w r w' :
+  valid_code z = true -> op_close true hr c (CInt z) false w = (r, w') ->
+  is_closed (stopped w) = true -> trace w' = trace w.
+Proof.
+  intros Hv Hs Hc. unfold op_close in Hs. fold (stopped w) in Hs.
+  rewrite (code_check_valid _ Hv), Hc in Hs. injection Hs as _ <-. reflexivity.
+Qed.
+
+(* the cleanup retries after a rejected close, and closes at all when the socket is open *)
+Lemma cleanup_retry hr c w e w' :
+  cleanup true hr c w = (e, w') ->
+  exists l, codes_after w w' l /\ retry_ok fallback_ws_error_code l = true
+            /\ (is_closed (stopped w) = false -> close_codes l <> []).
+Proof.
+  unfold cleanup. intro Hs.
+  destruct (op_close true hr c (CInt (err_code c)) false w) as [r w1] eqn:E1.
+  assert (Hvf : valid_code fallback_ws_error_code = true) by reflexivity.
+  assert (Ecf : code_check (CInt fallback_ws_error_code) = inl (Some fallback_ws_error_code))
+    by (apply code_check_valid; exact Hvf).
+  destruct (valid_code (err_code c)) eqn:Hv.
+  - pose proof (code_check_valid _ Hv) as Ece.
+    destruct (is_closed (stopped w)) eqn:Hcl.
+    + (* already closed: nothing is sent, close() returns *)
+      pose proof (stopped_closed_after_noclose _ _ _ _ _ _ Hv E1 Hcl) as T1.
+      unfold op_close in E1. fold (stopped w) in E1. rewrite Ece, Hcl in E1. injection E1 as <- <-.
+      injection Hs as <- <-. exists []. unfold codes_after. rewrite app_nil_r.
+      repeat split; auto. discriminate.
+    + destruct (close_try _ _ _ _ _ _ _ _ Ece Hcl E1) as [k [rr [T1 [Hk1 Hk2]]]].
+      destruct r as [v|x|].
+      * injection Hs as <- <-. eexists; split; [exact T1|]. split; [|intros _; discriminate].
+        apply retry_single. intro X. destruct (Hk1 X) as [Y _]. discriminate.
+      * destruct (mentions_invalid_code c x) eqn:Em.
+        -- destruct (op_close true hr c (CInt fallback_ws_error_code) false w1) as [r2 w2] eqn:E2.
+           assert (W : w' = w2) by (destruct r2; injection Hs as _ <-; reflexivity). subst w'.
+           assert (Hx : x = XInvalidCode).
+           { unfold mentions_invalid_code in Em. rewrite Ece in Em. destruct x; try discriminate. reflexivity. }
+           subst x. destruct (Hk1 (Hk2 eq_refl)) as [_ Hcl1].
+           destruct (close_try _ _ _ _ _ _ _ _ Ecf Hcl1 E2) as [k2 [rr2 [T2 _]]].
+           eexists ([_] ++ [_]). split; [unfold codes_after; rewrite T2, T1, <- app_assoc; reflexivity|].
+           split; [|intros _; discriminate].
+           cbn [app]. apply retry_app_single.
+           ++ intros _. right. discriminate.
+           ++ apply retry_single. intros _. reflexivity.
+        -- injection Hs as <- <-. eexists; split; [exact T1|]. split; [|intros _; discriminate].
+           apply retry_single. intro X. destruct (Hk1 X) as [Y _]. injection Y as ->. discriminate.
+      * injection Hs as <- <-. eexists; split; [exact T1|]. split; [|intros _; discriminate].
+        apply retry_single. intro X. destruct (Hk1 X) as [Y _]. discriminate.
+  - (* the configured code is invalid: close() rejects it, the fallback code is used *)
+    unfold op_close in E1. rewrite (code_check_invalid _ Hv) in E1. injection E1 as <- <-.
+    unfold mentions_invalid_code in Hs. rewrite (code_check_invalid _ Hv) in Hs.
+    destruct (op_close true hr c (CInt fallback_ws_error_code) false w) as [r2 w2] eqn:E2.
+    assert (W : w' = w2) by (destruct r2; injection Hs as _ <-; reflexivity). subst w'.
+    destruct (is_closed (stopped w)) eqn:Hcl.
+    + exists []. unfold codes_after. rewrite app_nil_r.
+      rewrite (stopped_closed_after_noclose _ _ _ _ _ _ Hvf E2 Hcl). repeat split; auto. discriminate.
+    + destruct (close_try _ _ _ _ _ _ _ _ Ecf Hcl E2) as [k2 [rr2 [T2 _]]].
+      eexists; split; [exact T2|]. split; [|intros _; discriminate].
+      apply retry_single. intros _. reflexivity.
+Qed.
+
+Lemma handle_exception_not_http hr c x w :
+  not_http x -> handle_exception true hr c x w = cleanup true hr c w.
+Proof. destruct x; cbn; intro H; try reflexivity; destruct H. Qed.
+
+Theorem wrapper_retry_all hr c rs e2 w2 rs' e' w' :
+  finish true hr c (rs, e2, w2) = (rs', e', w') -> e2 <> Stuck ->
+  exists l, codes_after w2 w' l
+            /\ wrapper_retry_ok fallback_ws_error_code (fst (cause_of e2)) l = true.
+Proof.
+  intros Hs Hns. unfold finish in Hs. destruct e2 as [|x|]; [| |congruence].
+  - (* returned: close(1000), then the cleanup if that raised *)
+    cbn [cause_of fst wrapper_retry_ok].
+    destruct (op_close true hr c CNone false w2) as [r w3] eqn:E3.
+    assert (Ec : code_check CNone = inl None) by reflexivity.
+    destruct (is_closed (stopped w2)) eqn:Hcl.
+    + unfold op_close in E3. fold (stopped w2) in E3. rewrite Ec, Hcl in E3. injection E3 as <- <-.
+      injection Hs as _ _ <-. exists []. unfold codes_after. rewrite app_nil_r. auto.
+    + destruct (close_try _ _ _ _ _ _ _ _ Ec Hcl E3) as [k [rr [T [Hk1 Hk2]]]].
+      destruct r as [v|x|].
+      * injection Hs as _ _ <-. eexists; split; [exact T|].
+        apply retry_single. intro X. destruct (Hk1 X) as [Y _]. discriminate.
+      * destruct (handle_exception true hr c x w3) as [e3 w4] eqn:E4. injection Hs as _ _ <-.
+        assert (Hx : not_http x).
+        { destruct (run_op_exc true hr c (OClose CNone false) w2 x w3 E3) as [A|[r0 [A _]]]; [exact A|discriminate]. }
+        rewrite (handle_exception_not_http _ _ _ _ Hx) in E4.
+        destruct (cleanup_retry _ _ _ _ _ E4) as [lc [Hc [Hr Hne]]].
+        exists ([(EClose (or1000 None) rr, k)] ++ lc).
+        split; [unfold codes_after in *; rewrite Hc, T, <- app_assoc; reflexivity|].
+        cbn [app]. apply retry_app_single; [|exact Hr].
+        intro X. right. apply Hne. apply (Hk1 X).
+      * injection Hs as _ _ <-. eexists; split; [exact T|].
+        apply retry_single. intro X. destruct (Hk1 X) as [Y _]. discriminate.
+  - destruct (handle_exception true hr c x w2) as [e3 w3] eqn:E3. injection Hs as _ _ <-.
+    assert (HT : not_http x \/ fst (cause_of (Raised x)) = 3%nat)
+      by (destruct x; cbn; auto).
+    destruct HT as [Hx|H3].
+    + rewrite (handle_exception_not_http _ _ _ _ Hx) in E3.
+      destruct (cleanup_retry _ _ _ _ _ E3) as [lc [Hc [Hr _]]].
+      exists lc. split; [exact Hc|]. destruct x; cbn; try exact Hr; reflexivity.
+    + destruct (handle_exception_codes _ _ _ _ _ _ E3) as [l [Hc _]].
+      exists l. split; [exact Hc|]. rewrite H3. reflexivity.
+Qed.
+
+Theorem wrapper_retry_session hr c mw rt cl fl rs e w :
+  session true hr c true mw rt cl fl = (rs, e, w) ->
+  let '(rs0, e2, w2) := scripts_end true hr c mw rt cl fl in
+  e2 <> Stuck ->
+  exists l, trace w = trace w2 ++ l
+            /\ wrapper_retry_ok fallback_ws_error_code (fst (cause_of e2)) l = true.
+Proof.
+  rewrite session_split. destruct (scripts_end true hr c mw rt cl fl) as [[rs0 e2] w2].
+  intros Hs Hns. apply (wrapper_retry_all _ _ _ _ _ _ _ _ Hs Hns).
 Qed.
